@@ -81,7 +81,8 @@ def report_common(ctx, r, prefix):
                                    "log": c.get("log"), "source": c["source"], "ast": c["ast"]})
     for c in sorted(r["crashes"], key=lambda c: 0 if "minimised" in c else 1)[:8]:
         ctx.violation(evaldiff.case_key("crash", c),
-                      "the real compiler/VM crashed on a generated well-typed program (%s, %s)" % (c["case"], c.get("crash")),
+                      "the real compiler/VM crashed on a generated well-typed program (%s, %s%s)" % (
+                          c["case"], c.get("crash"), ", with a VM heap of %d cells; no crash with 20000" % c["mem"] if c.get("mem") else ""),
                       evaldiff.replay_of(c))
 
 
@@ -139,6 +140,8 @@ def run(ctx):
         seen.add(key)
         m = c.get("minimised")
         what = "real result/prints/exception differ from the reference evaluator on %s" % c["case"]
+        if c.get("mem"):
+            what += " with a VM heap of %d cells (agrees with 20000)" % c["mem"]
         if m:
             what += " (minimised to %d nodes: evaluator %s, real %s)" % (m["nodes"], m["expected"], m["real"])
         ctx.violation(key, what, evaldiff.replay_of(c))
